@@ -65,10 +65,17 @@ def guarded(fn, resolver, near_stands=True):
             else:
                 orig_bad(key, where, msg, sample)
 
-        def check(cond, key, where, msg, what=None, sample=None):
+        def check(cond, key, where, msg, what=None, sample=None, text=False):
             if cond:
                 ctx.ok(what or key, sample)
                 return True
+            if text and os.environ.get("VERIF_NO_GUARD") != "1":
+                # a check that reads spelling: on a function whose every component has a counterpart but differs by more than
+                # a token it has no evidence of its own
+                fi = func_at(ctx, where)
+                if fi is not None and status(ctx, fi, resolver)[0] == "near":
+                    ctx.undecided(key, where, msg)
+                    return False
             bad(key, where, msg, sample)
             return False
         ctx.bad, ctx.check = bad, check
